@@ -336,6 +336,15 @@ def tokenize_structure(p):
         elif p[i + 1:i + 2] == "*":
             toks.append(("star", c, False))
             i += 2
+        elif p[i + 1:i + 3] == "+?":
+            toks.append(("star", c, True))        # one-or-more: instantiated like a starred atom (star_len >= 1 everywhere)
+            i += 3
+        elif p[i + 1:i + 2] == "+":
+            toks.append(("star", c, False))
+            i += 2
+        elif p[i + 1:i + 2] == "?":
+            toks.append(("lit", c))               # optional atom: instantiated as present
+            i += 2
         else:
             toks.append(("lit", c))
             i += 1
